@@ -1,4 +1,23 @@
 import SpdxVerif.Props.C05
+import SpdxVerif.Props.Consts
 #print axioms Spdx.C05.parseTokens_iff
 #print axioms Spdx.C05.accepts_iff
 #print axioms Spdx.C05.D_unique
+#print axioms Spdx.ConstsPin.readOperator_literals
+#print axioms Spdx.ConstsPin.readOperator_ints
+#print axioms Spdx.ConstsPin.readDocumentRef_literals
+#print axioms Spdx.ConstsPin.readLicenseRef_literals
+#print axioms Spdx.ConstsPin.readID_literals
+#print axioms Spdx.ConstsPin.isIdChar_is_the_class
+#print axioms Spdx.ConstsPin.skipWhitespace_literals
+#print axioms Spdx.ConstsPin.normalizeLicense_literals
+#print axioms Spdx.ConstsPin.normalizeLicense_ints
+#print axioms Spdx.ConstsPin.parseLicense_literals
+#print axioms Spdx.ConstsPin.parseWith_literals
+#print axioms Spdx.ConstsPin.parseLicenseRef_literals
+#print axioms Spdx.ConstsPin.parseParen_literals
+#print axioms Spdx.ConstsPin.parseAnd_literals
+#print axioms Spdx.ConstsPin.parseExpression_literals
+#print axioms Spdx.ConstsPin.parseAtom_literals
+#print axioms Spdx.ConstsPin.isAnd_literals
+#print axioms Spdx.ConstsPin.isOr_literals
